@@ -499,7 +499,51 @@ def rule_m4(ctx, facts):
                              [[(ci["kind"], b.local_name(ci["sentinel"]) if ci["sentinel"] is not None else None) for ci in loop_cursor_info(b, CL, cbe[1])] for cbe, CL in copy_loops]))
 
 
+def rule_m6(ctx, facts):
+    """forwarded-table pointer validity: the shared Moved marker of a table is only handed out by a function that has made sure the
+    table's next_table is set (T1's exceptions for `next_table` rest on exactly this)"""
+    MOVED = ("raw::Table", "moved")
+    NEXT = ("raw::Table", "next_table")
+    readers = []
+    for b in facts.bodies:
+        for c in b.calls:
+            if is_reclaim_atomic(c) == "load" and MOVED in receiver_field(b, c, 0) and not b.is_cleanup(c.b):
+                readers.append((b, c))
+    if not readers:
+        ctx.fail_closed("M6: no load of Table.moved found")
+        return
+    for b, c in readers:
+        if b.nargs >= 1 and b.ty(1)["s"].startswith("&mut "):
+            continue
+        sets = {x.point for x in b.calls if is_reclaim_atomic(x) == "compare_exchange" and NEXT in receiver_field(b, x, 0)}
+        edges = set()
+        fl = flow(b)
+        for blk in range(len(b.blocks)):
+            cd = cond_of(b, blk)
+            if cd and cd["kind"] == "is_null" and cd.get("arg") is not None:
+                for rc in fl.call_roots(cd["arg"]):
+                    if rc is not None and (callee_str(rc).endswith("Table::next_table") or (is_reclaim_atomic(rc) == "load" and NEXT in receiver_field(b, rc, 0))):
+                        edges.add((blk, cd["false"]))
+        r = reach(b, [entry(b)], avoid=sets, avoid_edges=edges)
+        ok = c.point not in r
+        ctx.inst("M6", b, "Moved marker handed out only after next_table is set", c.span, ok,
+                 "every path to the marker load passes the CAS that sets next_table or a non-null test of it" if ok else
+                 "the forwarding marker can be obtained on a path on which this table's next_table has not been set: a reader that follows the marker "
+                 "dereferences a null next_table")
+    # stores of a Moved marker into a bin must use that function's result
+    getters = {b.id for b, c in readers if not (b.nargs >= 1 and b.ty(1)["s"].startswith("&mut "))}
+    for b in facts.bodies:
+        for st_b in b.blocks:
+            for st in st_b["stmts"]:
+                if st["k"] == "assign" and "agg" in st["rv"] and st["rv"]["agg"].get("adt") == "node::BinEntry" and st["rv"]["agg"].get("variant") == "Moved":
+                    ok = b.sid.endswith("raw::Table::from")
+                    ctx.inst("M6", b, "Moved entries are created only with their table", st["span"], ok,
+                             "created once per table in Table::from" if ok else "a BinEntry::Moved is created outside Table::from: it carries no next_table guarantee")
+
+
 def run(ctx, facts):
+    ctx.rule("M6", "the shared forwarding marker is only handed out after next_table has been set (get_moved); Moved entries are created only in Table::from", floor=2)
+    rule_m6(ctx, facts)
     ctx.rule("M1", "a Guard::unprotected() value never reaches (through args, refs, aggregates, captures) a retire that is followed by a touch "
                    "of the retired object or of a lock inside it", floor=5, floor_note="5 unprotected sites after the F1 repair: presize, HashMap::drop, drop_fields, drop_bins, Table::drop")
     ctx.rule("M2", "on every path realising the value flow to a retire operand, an unlink write on the operand's container precedes the retire",
